@@ -9,7 +9,9 @@ CONSTANTS
   UnimplTargets = {"GetContainmentTree"}
   MutatingTargets = {"SetValue", "EpisodicMetricReport"}
   Part = "all"
+  EmitOnly = FALSE
 INVARIANT TypeOK
+INVARIANT ReadProgress
 INVARIANT Outcome
 INVARIANT FoldAgrees
 INVARIANT NoEscape
